@@ -160,12 +160,16 @@ class Codec:
         raise ThriftError("unknown type %s" % typ)
 
     # ------------------------------------------------------------ encoding
-    def encode(self, sname, value):
+    def encode(self, sname, value, long_fields=False, long_lists=False):
+        """long_fields: write every field header in the long form (type byte + zigzag i16 id), which the
+        compact protocol allows for any field and requires when the id delta is outside 1..15;
+        long_lists: write every list header in the long form (0xF? + varint size), also for sizes < 15.
+        Both default to the canonical (shortest) form."""
         out = bytearray()
-        self._enc_struct(sname, value, out)
+        self._enc_struct(sname, value, out, long_fields, long_lists)
         return bytes(out)
 
-    def _enc_struct(self, sname, value, out):
+    def _enc_struct(self, sname, value, out, long_fields=False, long_lists=False):
         spec = self.structs[sname]
         byname = {f[0]: (fid, f) for fid, f in spec["fields"].items()}
         prev = 0
@@ -183,7 +187,7 @@ class Codec:
             if ct == CT_TRUE:
                 ct = CT_TRUE if v else CT_FALSE
             delta = fid - prev
-            if 0 < delta <= 15:
+            if 0 < delta <= 15 and not long_fields:
                 out.append((delta << 4) | ct)
             else:
                 out.append(ct)
@@ -191,10 +195,10 @@ class Codec:
             prev = fid
             if ct in (CT_TRUE, CT_FALSE):
                 continue
-            self._enc_value(typ, v, out)
+            self._enc_value(typ, v, out, long_fields, long_lists)
         out.append(0)
 
-    def _enc_value(self, typ, v, out):
+    def _enc_value(self, typ, v, out, long_fields=False, long_lists=False):
         if typ in INT_BITS or typ in self.enums:
             bits = INT_BITS.get(typ, 32)
             if not -(1 << (bits - 1)) <= v < (1 << (bits - 1)):
@@ -215,15 +219,15 @@ class Codec:
             et = typ[5:-1]
             ect = self.ctype(et)
             n = len(v)
-            if n < 15:
+            if n < 15 and not long_lists:
                 out.append((n << 4) | ect)
             else:
                 out.append(0xF0 | ect)
                 out += uvarint(n)
             for item in v:
-                self._enc_value(et, item, out)
+                self._enc_value(et, item, out, long_fields, long_lists)
         elif typ in self.structs:
-            self._enc_struct(typ, v, out)
+            self._enc_struct(typ, v, out, long_fields, long_lists)
         else:
             raise ThriftError("cannot encode %s" % typ)
 
@@ -370,8 +374,19 @@ class Codec:
             n = b >> 4
             if n == 15:
                 n, pos = read_uvarint(buf, pos)
+            if b & 0x0F in (CT_TRUE, CT_FALSE):
+                return pos + n          # bool elements take one byte each (only bool *fields* live in the header)
             for _ in range(n):
                 pos = self._skip(b & 0x0F, buf, pos)
+            return pos
+        if ct == CT_MAP:
+            n, pos = read_uvarint(buf, pos)
+            if n:
+                kv = buf[pos]
+                pos += 1
+                for _ in range(n):
+                    pos = self._skip(kv >> 4, buf, pos)
+                    pos = self._skip(kv & 0x0F, buf, pos)
             return pos
         if ct == CT_STRUCT:
             while True:
